@@ -364,6 +364,9 @@ impl ServerModel {
                 }
                 Ok(())
             }
+            SAct::PingOnStream { ts, .. } => {
+                return self.check(&SAct::Ping { ts: *ts }, o, outs, fp_before, fp_after);
+            }
             SAct::PingBurst { ts, n } => {
                 none("ping")?;
                 let got: Vec<Option<u32>> = outs.iter().filter_map(|x| match &x.m { M::UserControl { code: 7, timestamp, .. } => Some(*timestamp), _ => None }).collect();
@@ -589,6 +592,7 @@ pub fn actions_for(m: &ServerModel, max_streams: usize, max_outstanding: usize, 
     }
     acts.push(SAct::Ping { ts: 0x0102_0304 });
     acts.push(SAct::PingBurst { ts: 0xFFFF_FFFF, n: 3 });
+    acts.push(SAct::PingOnStream { msid: *live_sids.last().unwrap_or(&7), ts: 77 });
     acts.push(SAct::UnknownCommand);
     // application calls: every outstanding id, one consumed id, one never issued
     let mut ids: Vec<u32> = m.out.keys().cloned().collect();
